@@ -21,6 +21,7 @@ func TestMain(m *testing.M) {
 			"Oracle on the call log: (a) a repeat of a succeeded encrypt (same cache, partition) or decrypt (same cache, record) while now <= lastLoad(key)+interval and the key is valid issues zero store/KMS calls; "+
 			"(b) per factory and SK row successive KMS.DecryptKey calls are more than one interval apart; (c) the first use after the interval reads the IK row exactly once, the SK row and KMS at most once, writes nothing; "+
 			"(d) with caching disabled every call reads the store and leaves no live secret behind. One evaluation = one history. "+
+			"Plus a concurrent part: 2-8 sessions over 1-6 partitions of one factory start at the same instant (clock frozen) on a cold factory or right after the interval elapsed, under a drawn delay plan over the yield points of key_cache.go / envelope.go: every operation succeeds, the KMS unwraps the system key at most once, its record is read at most once, nothing is written. "+
 			"Non-trivial = a history with >= 3 asserted free repeats inside one interval and >= 1 asserted post-interval re-read; distinct = distinct (cache class, #free repeats bucket, #rereads bucket, rotated?)",
 		"virtual clock injected by build overlay", "working set fits the caches (asserted only then)", "call counts during rotation / revocation handling are not asserted")
 }
